@@ -386,7 +386,11 @@ func (c *Cache) GnmiUpdate(n *pb.Notification) error {
 func (t *Target) GnmiUpdate(n *pb.Notification) error {
 	updateTS := false
 	if u := n.GetUpdate(); len(u) > 0 {
-		if p := u[0].GetPath().GetElem(); len(p) > 0 && p[0].GetName() != metadata.Root {
+		suffix := u[0].GetPath()
+		if n.GetAtomic() {
+			suffix = nil
+		}
+		if p := joinPrefixAndPath(n.GetPrefix(), suffix); len(p) > 0 && p[0] != metadata.Root {
 			// Record latest timestamp from the device, excluding all 'meta' paths.
 			defer func(ts int64) {
 				if updateTS {
